@@ -238,6 +238,8 @@ pub struct TowerState {
     pub expiry: u32,
     pub start_block: u32,
     pub up: bool,
+    /// every reply is held back this long (a slow tower)
+    pub delay_ms: u64,
 }
 
 pub struct FakeTower {
@@ -301,6 +303,7 @@ impl FakeTower {
             expiry: 1000,
             start_block: 500,
             up: true,
+            delay_ms: 0,
         }));
         let stop = Arc::new(AtomicBool::new(false));
         let in_flight = Arc::new(AtomicU64::new(0));
@@ -348,6 +351,10 @@ impl FakeTower {
                                     let scripted = st.scripts.get_mut(&path).and_then(|q| q.pop_front());
                                     scripted.or_else(|| st.default.get(&path).cloned()).unwrap_or(Behaviour::Accept)
                                 };
+                                let delay = state.lock().unwrap().delay_ms;
+                                if delay > 0 {
+                                    std::thread::sleep(Duration::from_millis(delay));
+                                }
                                 serve(&state, &mut s, &path, &bodyv, &b);
                                 state.lock().unwrap().served.push(Served { at, done: Instant::now(), path, body: bodyv, behaviour: b });
                             }
@@ -365,6 +372,14 @@ impl FakeTower {
         self.state.lock().unwrap().up = up;
         // give the listener thread time to act
         std::thread::sleep(Duration::from_millis(60));
+    }
+
+    pub fn in_flight(&self) -> u64 {
+        self.in_flight.load(Ordering::SeqCst)
+    }
+
+    pub fn set_delay(&self, ms: u64) {
+        self.state.lock().unwrap().delay_ms = ms;
     }
 
     pub fn script(&self, path: &str, b: Vec<Behaviour>) {
